@@ -9,6 +9,10 @@ import time
 from . import core
 
 
+class BrokenRuntime(Exception):
+    """The runtime cannot execute the empty program under the simulator."""
+
+
 class Check:
     """Base class. A check turns run index i (plus the batch seed) into a *case*: a self contained dict
     holding the jobs to simulate and what its oracle needs. `judge` executes a case and returns an
@@ -31,7 +35,17 @@ class Check:
         raise NotImplementedError
 
     def prepare(self, ctx):
-        pass
+        self.startup = self.startup_probe(ctx)
+
+    def startup_probe(self, ctx):
+        """Index of the first managed allocation at which a collection can run (after VM start-up). A runtime
+        that cannot even run the empty program violates every property; that is reported as a violation."""
+        result = ctx.run({"id": "startup", "files": {"/sim/main.lay": "nil;"}, "main": "/sim/main.lay",
+                          "gc": {"kind": "every", "mode": "full"}})
+        failure = core.host_failure(result)
+        if failure or result["vmexit"] != "ok" or not result["fired"]:
+            raise BrokenRuntime(failure or ("empty program ended with %s: %s" % (result["vmexit"], result["stderr"][:300])))
+        return result["fired"][0][0]
 
     def make(self, ctx, index):
         raise NotImplementedError
@@ -196,6 +210,24 @@ def main(check_factory, argv=None):
     if args.replay:
         return replay_main(check, binaries, args)
 
+    # a runtime that cannot run the empty program is broken for every property
+    ctx = core.Context(binaries, args.seed, args.tier)
+    try:
+        check.startup_probe(ctx)
+    except BrokenRuntime as error:
+        path = core.write_replay(check.prop, "startup-seed%d" % args.seed, {
+            "property": check.prop, "clause": "the runtime cannot execute the empty program", "detail": str(error),
+            "seed": args.seed, "run_index": -1, "case": {"kind": "startup"}})
+        print("VIOLATION property=%s replay=%s" % (check.prop, os.path.relpath(path, core.VERIF)))
+        print("  clause: the runtime cannot execute the empty program")
+        print("  detail: %s" % str(error)[:600])
+        return 1
+    except core.HarnessError as error:
+        print("HARNESS-ERROR: %s" % error)
+        return 2
+    finally:
+        ctx.close()
+
     known = [f for f in core.load_known_findings().get("findings", []) if f.get("property") == check.prop]
 
     # pinned known findings are re-run on every invocation
@@ -312,8 +344,15 @@ def replay_main(check, binaries, args):
         record = json.load(handle)
     ctx = core.Context(binaries, record.get("seed", 1), "quick")
     try:
-        check.prepare(ctx)
-        outcome = check.judge(ctx, record["case"])
+        if record["case"].get("kind") == "startup":
+            try:
+                check.startup_probe(ctx)
+                outcome = {"violations": []}
+            except BrokenRuntime as error:
+                outcome = {"violations": [{"clause": record["clause"], "detail": str(error)}]}
+        else:
+            check.prepare(ctx)
+            outcome = check.judge(ctx, record["case"])
     except core.HarnessError as error:
         print("HARNESS-ERROR: %s" % error)
         return 2
